@@ -229,7 +229,8 @@ def match_template_queries(spec, lm):
     rng = random.Random(spec["tseed"])
     n = rng.randint(1, 6)
     world = [(rng.choice(["LS", "LS2"]), rng.randint(0, 1), [rng.randrange(n) for _ in range(rng.randint(0, 2))]) for _ in range(n)]
-    kind = rng.choice(["lit", "nested", "any", "subtype"])
+    kind = rng.choice(["lit", "nested", "any", "subtype", "var", "var_nested"])
+    var_values = [rng.randint(0, 1) for _ in range(rng.randint(1, 3))]
 
     def make():
         objs = [getattr(lm, c)(name=f"s{i}", a=a) for i, (c, a, _) in enumerate(world)]
@@ -243,6 +244,16 @@ def match_template_queries(spec, lm):
             pat = entity_matching(lm.LS2, dom)(a=0)
         elif kind == "nested":
             pat = entity_matching(lm.LS, dom)(parts=match(lm.LS)(a=1))
+        elif kind in ("var", "var_nested"):
+            # the constrained attribute is assigned a VARIABLE over a one-shot generator of the user
+            from krrood.entity_query_language.entity import let
+
+            def wanted():
+                for i, v in enumerate(var_values):
+                    lm.LOG.append(("pull", "wanted", i))
+                    yield v
+            w = let(int, wanted(), name="wanted")
+            pat = entity_matching(lm.LS, dom)(a=w) if kind == "var" else entity_matching(lm.LS, dom)(parts=match(lm.LS)(a=w))
         else:
             pat = entity_matching(lm.LS, dom)(parts=match_any([objs[0]]))
         q = an(pat)
